@@ -20,7 +20,7 @@ CLAIMS = {
          "Exploration: generated text logs (small and 0.1-1.5 MB poorly compressible), synthesised accounting-record files, shipped journal/evtx and tiny raw files, wrapped by gz (flate2 levels/header fields; zlib flush points), bz2, xz, lz4 (all frame options) and tar (member position, decoys, long names) with generated parameters, read at block sizes 64..0xFFFFFF under optional windows; stdout must equal the plain-file run.",
          "Trusts: the plain-file run as reference (its own correctness is C02/C08/C09/C10). Known finding: xz with SHA-256 check (excluded by construction, probed).",
          "DESIGN.md section 4 C05"),
- "C08": ("property-based testing (proptest): synthesised record files for all 15 layouts, reference-model oracle (live records stable-sorted by time value) with every printed field parsed back",
+ "C08": ("property-based testing (proptest) + coverage-guided fuzzing (libFuzzer+ASan, thorough tier): synthesised record files for all 15 layouts, reference-model oracle (live records stable-sorted by time value) with every printed field parsed back; every case run twice in separate processes (determinism)",
          "Exploration: thousands of generated record files (duplicated/disordered/seconds-only times, null records interleaved) x containers x block sizes x windows; the printed sequence must be exactly the live records in stable time order and each line must carry that record's own string fields, pid and time.",
          "Trusts: struct offsets/sizes from s4lib's public definitions; layout detection is outside the property (mis-detected cases discarded and counted).",
          "DESIGN.md section 4 C08"),
